@@ -368,7 +368,8 @@ func (g *G) Struct(v reflect.Value, depth int) {
 		}
 		switch {
 		case f.Skip:
-			if !g.WF && g.R.Intn(3) == 0 && fv.Kind() == reflect.Interface {
+			// a field annotated skip may hold anything: it takes no part in encoding (and comes back nil)
+			if g.R.Intn(3) == 0 && fv.Kind() == reflect.Interface {
 				fv.Set(reflect.ValueOf("vendor"))
 				g.hit("skip:nonnil")
 			}
